@@ -2,6 +2,7 @@
   TwProofs.C17 — Response writes the page or one error page, and leaks no detail unless debugging.
 -/
 import TwModel
+import TwProofs.Lemmas.EvalStep
 
 namespace Tw.C17
 open Tw
@@ -76,15 +77,15 @@ theorem evalBlock_onlyText (c : Ctx) (env : Env) : ∀ (ss : List Stmt) (fuel : 
     ss.length + 1 ≤ fuel → evalBlock (fuel + 1) c env ss = .ok ({ text := textOf ss }, env) := by
   intro ss
   induction ss with
-  | nil => intro fuel _ _; simp [evalBlock, textOf]
+  | nil => intro fuel _ _; rw [evalBlock_nil]; simp [textOf]
   | cons s r ih =>
     intro fuel hs hf
     cases s with
     | html t =>
       obtain ⟨f, rfl⟩ : ∃ f, fuel = f + 1 := ⟨fuel - 1, by simp at hf; omega⟩
       have := ih f (by simpa [onlyText] using hs) (by simp at hf; omega)
-      rw [evalBlock]
-      simp only [evalStmt, Bool.false_eq_true, Bool.or_self, if_false, this, textOf]
+      rw [evalBlock_cons, evalStmt_html]
+      simp only [Res.bind_ok, Bool.false_eq_true, Bool.or_self, if_false, this, textOf]
     | _ => simp [onlyText] at hs
 
 theorem stmtsDepth_le (ss : List Stmt) : True := trivial
@@ -100,7 +101,7 @@ theorem evalProg_quiet (c : Ctx) (env : Env) (hdbg : env.get (b "debugMode") = s
     evalProg fuel c env ss acc = .ok (acc ++ quietText ss, env) := by
   intro ss
   induction ss with
-  | nil => intro fuel acc _ hf; obtain ⟨f, rfl⟩ : ∃ f, fuel = f + 1 := ⟨fuel - 1, by omega⟩; simp [evalProg, quietText]
+  | nil => intro fuel acc _ hf; obtain ⟨f, rfl⟩ : ∃ f, fuel = f + 1 := ⟨fuel - 1, by omega⟩; rw [evalProg_nil]; simp [quietText]
   | cons s r ih =>
     intro fuel acc hs hf
     obtain ⟨f, rfl⟩ : ∃ f, fuel = f + 3 := ⟨fuel - 3, by omega⟩
@@ -108,8 +109,9 @@ theorem evalProg_quiet (c : Ctx) (env : Env) (hdbg : env.get (b "debugMode") = s
     | html t =>
       have hr : debugGuarded r = true := by simpa [debugGuarded] using hs
       have := ih (f + 2) (acc ++ t.lit) hr (by simp [maxAlt] at hf ⊢; omega)
-      rw [show f + 3 = (f + 2) + 1 from rfl, evalProg]
-      simp [evalStmt, this, quietText, List.append_assoc]
+      rw [show f + 3 = (f + 2) + 1 from rfl, evalProg_cons, show f + 2 = (f + 1) + 1 from rfl, evalStmt_html, Res.bind_ok]
+      rw [show f + 1 + 1 = f + 2 from rfl, this]
+      simp [quietText, List.append_assoc]
     | ifS t cnd cons alts alt =>
       cases cnd with
       | ident t2 n =>
@@ -122,9 +124,11 @@ theorem evalProg_quiet (c : Ctx) (env : Env) (hdbg : env.get (b "debugMode") = s
             obtain ⟨hn, hr⟩ := hs'
             subst hn
             have := ih (f + 2) acc hr (by simp [maxAlt] at hf ⊢; omega)
-            rw [show f + 3 = (f + 2) + 1 from rfl, evalProg]
-            simp only [show f + 2 = (f + 1) + 1 from rfl, evalStmt, evalExpr, hdbg, isTruthy, Bool.false_eq_true, if_false,
-              evalElseIfs]
+            rw [show f + 3 = (f + 2) + 1 from rfl, evalProg_cons, show f + 2 = (f + 1) + 1 from rfl, evalStmt_ifS]
+            obtain ⟨g, hg⟩ : ∃ g, f = g + 1 := ⟨f - 1, by simp [maxAlt] at hf; omega⟩
+            subst hg
+            rw [evalElseIfs_nil]
+            simp only [evalExpr, hdbg, Res.bind_ok, isTruthy, Bool.false_eq_true, if_false]
             simpa [quietText] using this
           | some ab =>
             have hs' : (n = b "debugMode" ∧ onlyText ab = true) ∧ debugGuarded r = true := by simpa [debugGuarded] using hs
@@ -132,11 +136,11 @@ theorem evalProg_quiet (c : Ctx) (env : Env) (hdbg : env.get (b "debugMode") = s
             subst hn
             have hrest := ih (f + 2) (acc ++ textOf ab) hr (by simp [maxAlt] at hf ⊢; omega)
             have hblk := evalBlock_onlyText c env.push ab (f - 1 + 0) hot (by simp [maxAlt] at hf; omega)
-            rw [show f + 3 = (f + 2) + 1 from rfl, evalProg]
-            simp only [show f + 2 = (f + 1) + 1 from rfl, evalStmt, evalExpr, hdbg, isTruthy, Bool.false_eq_true, if_false]
+            rw [show f + 3 = (f + 2) + 1 from rfl, evalProg_cons, show f + 2 = (f + 1) + 1 from rfl, evalStmt_ifS]
             obtain ⟨g, hg⟩ : ∃ g, f = g + 1 := ⟨f - 1, by simp [maxAlt] at hf; omega⟩
             subst hg
-            simp only [evalElseIfs]
+            rw [evalElseIfs_nil]
+            simp only [evalExpr, hdbg, Res.bind_ok, isTruthy, Bool.false_eq_true, if_false]
             simp only [Nat.add_sub_cancel, Nat.add_zero] at hblk
             rw [hblk]
             simpa [quietText, List.append_assoc] using hrest
